@@ -29,6 +29,16 @@ Theorem no_attribute_error : forall maxsize block progs fuel sched,
 Proof. exact PoolConc_proofs.no_attribute_error. Qed.
 Print Assumptions no_attribute_error.
 
+(* without close(): as long as some thread has work left, some thread can move - nobody waits for ever, no slot is lost,
+   no wake-up is missed (a thread parked in get on an empty queue means a connection is held by a thread that can run) *)
+Theorem progress_without_close : forall ws maxsize block progs fuel sched,
+  Forall (fun ops => ~ In Close ops) progs -> 1 <= maxsize ->
+  let st := PoolConc.run ws fuel maxsize block (init maxsize progs) sched in
+  (exists th, In th (s_threads st) /\ t_pc th <> PIdle) ->
+  exists t, t < length (s_threads st) /\ runnable block st t = true.
+Proof. exact PoolConc_proofs.progress_without_close. Qed.
+Print Assumptions progress_without_close.
+
 (* "every request eventually completes" is false when close() races with a waiter (known finding C02-F1):
    maxsize 1, block=True; thread 0 holds the connection, thread 1 waits in get, thread 2 closes the pool; thread 0 then
    closes its connection instead of returning it, and thread 1 waits for ever *)
